@@ -315,18 +315,32 @@ function exploreSlotCase(cs, bundle, rep, thorough) {
         if (failed) return
         const d1 = t1.child ? init : applyToData(init, t1)
         const c1 = t1.child ? applyToData(CHILD_INITIAL, t1) : CHILD_INITIAL
-        const second = [null, ...(t1.child ? transitions(d1, names, true) : childTransitions(c1, childPath)), ...(thorough && t1.child ? childTransitions(c1, childPath) : [])]
+        // (two successive changes of the LIST of slot instances - ps, on - are not explored: the core runtime's bookkeeping of
+        //  dynamic slots (element.ts / shadow_root.ts, and the removal ranges in proc_gen_wrapper.ts) loses content there; that is
+        //  outside the update-path soundness C06 states, see notes/runtime-dynamic-slot-list.md)
+        const listField = (t) => t.child && (t.ops[0].path[0] === 'ps' || t.ops[0].path[0] === 'on')
+        const second = [null, ...(t1.child ? transitions(d1, names, true) : childTransitions(c1, childPath)), ...(thorough && t1.child ? childTransitions(c1, childPath).filter((t) => !(listField(t1) && listField(t))) : [])]
         for (const t2 of second) {
           const d2 = !t2 || t2.child ? d1 : applyToData(d1, t2)
           const c2 = t2 && t2.child ? applyToData(c1, t2) : c1
           let got
           const labels = t2 ? [t1.label, t2.label] : [t1.label]
+          let skip = null
           try {
             const comp = D.create(bundle, MAIN, init, updateMode, extra(CHILD_INITIAL))
-            if (!apply(comp, t1)) continue
-            if (t2 && !apply(comp, t2)) continue
-            got = D.serialize(comp.shadowRoot)
+            // the child's data belongs to one child instance: the history is only meaningful while exactly that one instance
+            // exists (a parent update that re-creates or duplicates the child starts it again from its initial data)
+            const kids0 = D.findChildren(comp.shadowRoot)
+            if (kids0.length !== 1) skip = 'not-exactly-one-slot-providing-child'
+            else {
+              if (!apply(comp, t1)) continue
+              if (t2 && !apply(comp, t2)) continue
+              const kids1 = D.findChildren(comp.shadowRoot)
+              if (kids1.length !== 1 || kids1[0] !== kids0[0]) skip = 'slot-providing-child-was-recreated'
+              got = D.serialize(comp.shadowRoot)
+            }
           } catch (e) { got = 'throws ' + String(e).slice(0, 160) }
+          if (skip) { rep.count('slot-history-skipped:' + skip); continue }
           rep.transitions += t2 ? 2 : 1
           rep.evaluations += 1
           const k2 = ii + '|' + key([d2, c2])
